@@ -367,11 +367,46 @@ func (c *Ctx) headerRanges(dv *deepView, fn *ssa.Function, parts []listItem, arm
 			bad = append(bad, fmt.Sprintf("the second range starts at %s, want just after the 4-byte checksum (%s)", s1.String(), exp(offCk+4).String()))
 		}
 		ddEntry := offDD + 8*4
-		if !e1.equal(exp(ddEntry)) {
-			bad = append(bad, fmt.Sprintf("the second range ends at %s, want the certificate-table directory entry of %s at %s", e1.String(), tname, exp(ddEntry).String()))
+		// the offset of the entry taken from a read-only table (a package-level map filled
+		// by its literal) with a key that is not a constant: which entry applies is a fact
+		// about the producer of the key; decided only as far as "no entry of the table fits"
+		tableUndecided := ""
+		if d := exp(ddEntry).add(e1, -1); len(d.T) == 1 {
+			for sym, cf := range d.T {
+				lk, isLk := ir.StripConv(d.Sym[sym]).(*ssa.Lookup)
+				if !isLk || cf != -1 {
+					continue
+				}
+				if _, isMap := lk.X.Type().Underlying().(*types.Map); !isMap {
+					continue
+				}
+				if _, isK := ir.ConstInt(lk.Index); isK {
+					continue
+				}
+				vals, okM := c.readOnlyIntMap(lk.X)
+				fits := !okM
+				for _, v := range vals {
+					if v == d.K {
+						fits = true
+					}
+				}
+				if fits {
+					tableUndecided = sym
+				}
+			}
 		}
-		if !s2.equal(exp(ddEntry + 8)) {
-			bad = append(bad, fmt.Sprintf("the third range starts at %s, want just after the 8-byte entry (%s)", s2.String(), exp(ddEntry+8).String()))
+		if tableUndecided != "" {
+			c.R.Infof("J1.layout", fname, construct+":entry-offset", c.Pos(fn.Pos()), "not decided for this shape: the offset of the certificate-table entry is looked up in a table ("+tableUndecided+") with a key that is not a constant; the evaluator does not decide which entry the key selects")
+			if !s2.equal(e1.add(constAffine(8), 1)) {
+				bad = append(bad, fmt.Sprintf("the third range starts at %s, want just after the 8-byte entry that ends the second range (%s)", s2.String(), e1.String()))
+			}
+		} else {
+			if !e1.equal(exp(ddEntry)) {
+				bad = append(bad, fmt.Sprintf("the second range ends at %s, want the certificate-table directory entry of %s at %s", e1.String(), tname, exp(ddEntry).String()))
+			}
+			if !s2.equal(exp(ddEntry + 8)) {
+				bad = append(bad, fmt.Sprintf("the third range starts at %s, want just after the 8-byte entry (%s)", s2.String(), exp(ddEntry+8).String()))
+			}
 		}
 		// third range ends at SizeOfHeaders of this header
 		okSOH := false
@@ -390,6 +425,154 @@ func (c *Ctx) headerRanges(dv *deepView, fn *ssa.Function, parts []listItem, arm
 		}
 		c.R.Check(len(bad) == 0, "J1.layout", fname, construct, c.Pos(fn.Pos()), what, strings.Join(bad, "; "))
 	}
+}
+
+// readOnlyIntMap: m is the load of a package-level map that the package
+// initialiser fills from a literal with constant integer keys and values and
+// that the library otherwise only looks things up in; returns the values a
+// lookup can yield (the entries and the zero value of a missing key).
+func (c *Ctx) readOnlyIntMap(m ssa.Value) ([]int64, bool) {
+	ld, ok := m.(*ssa.UnOp)
+	if !ok || ld.Op != token.MUL {
+		return nil, false
+	}
+	g, ok := ld.X.(*ssa.Global)
+	if !ok || g.Pkg == nil {
+		return nil, false
+	}
+	fns := append([]*ssa.Function{}, c.P.LibFunctions()...)
+	if in := g.Pkg.Func("init"); in != nil {
+		fns = append(fns, in)
+	}
+	var mk *ssa.MakeMap
+	clean := true
+	done := map[*ssa.Function]bool{}
+	for _, fn := range fns {
+		if done[fn] {
+			continue
+		}
+		done[fn] = true
+		isInit := fn.Name() == "init" && fn.Signature.Recv() == nil && fn.Pkg == g.Pkg
+		instrsOf(fn, func(i ssa.Instruction) {
+			var ops []*ssa.Value
+			for _, op := range i.Operands(ops) {
+				if op == nil || *op != ssa.Value(g) {
+					continue
+				}
+				switch x := i.(type) {
+				case *ssa.UnOp:
+					if x.Op == token.MUL {
+						// the loaded map is only looked up in
+						for _, r := range *x.Referrers() {
+							switch rr := r.(type) {
+							case *ssa.Lookup:
+								if rr.X != ssa.Value(x) {
+									clean = false
+								}
+							case *ssa.DebugRef:
+							default:
+								clean = false
+							}
+						}
+						continue
+					}
+				case *ssa.Store:
+					if mm, isMk := x.Val.(*ssa.MakeMap); isMk && x.Addr == ssa.Value(g) && isInit && mk == nil {
+						mk = mm
+						continue
+					}
+				}
+				clean = false
+			}
+		})
+	}
+	if mk == nil || !clean {
+		return nil, false
+	}
+	vals := []int64{0}
+	for _, r := range *mk.Referrers() {
+		switch x := r.(type) {
+		case *ssa.MapUpdate:
+			_, okK := ir.ConstInt(x.Key)
+			v, okV := ir.ConstInt(x.Value)
+			if x.Map != ssa.Value(mk) || !okK || !okV {
+				return nil, false
+			}
+			vals = append(vals, v)
+		case *ssa.Store:
+			if x.Val != ssa.Value(mk) {
+				return nil, false
+			}
+		case *ssa.DebugRef:
+		default:
+			return nil, false
+		}
+	}
+	return vals, true
+}
+
+// sliceLenBound: v is the load of a slice-typed struct field that every store
+// in the package declaring the struct (and in the library) allocates with
+// make([]T, n) for an n converted from an unsigned integer type narrower than
+// int; returns the largest value of that type, an upper bound of len(v).
+func (c *Ctx) sliceLenBound(v ssa.Value) (int64, bool) {
+	ld, ok := ir.StripConv(v).(*ssa.UnOp)
+	if !ok || ld.Op != token.MUL {
+		return 0, false
+	}
+	fa, ok := ld.X.(*ssa.FieldAddr)
+	if !ok {
+		return 0, false
+	}
+	id := ir.FieldID(fa)
+	fld := ir.FieldOf(fa)
+	if id == "" || fld == nil || fld.Pkg() == nil {
+		return 0, false
+	}
+	bound, n := int64(0), 0
+	okAll := true
+	for fn := range c.P.AllFunctions() {
+		if fn.Blocks == nil || fn.Pkg == nil || !(fn.Pkg.Pkg == fld.Pkg() || c.P.InLib(fn)) {
+			continue
+		}
+		for _, st := range storesTo(fn, id) {
+			n++
+			mk, isMk := st.Val.(*ssa.MakeSlice)
+			if !isMk {
+				okAll = false
+				continue
+			}
+			src := mk.Len
+			for {
+				cv, isCv := src.(*ssa.Convert)
+				if !isCv {
+					break
+				}
+				src = cv.X
+			}
+			b, isB := src.Type().Underlying().(*types.Basic)
+			if !isB {
+				okAll = false
+				continue
+			}
+			var max int64
+			switch b.Kind() {
+			case types.Uint8:
+				max = 1<<8 - 1
+			case types.Uint16:
+				max = 1<<16 - 1
+			case types.Uint32:
+				max = 1<<32 - 1
+			default:
+				okAll = false
+				continue
+			}
+			if max > bound {
+				bound = max
+			}
+		}
+	}
+	return bound, okAll && n > 0
 }
 
 func peFileHeader(c *Ctx) types.Type {
@@ -486,6 +669,66 @@ func (c *Ctx) sectionOrder(dv *deepView, fn *ssa.Function, parts []listItem) {
 			ranged, haveRanged = dv.resolve(ia.X, sfr), true
 		}
 	}
+	// a loop over s[:h] where h cannot cut s short (no bound, len(s), or min(len(s), K...)
+	// with every K at least the largest length s is ever allocated with) ranges over s itself
+	prefixUndecided := ""
+	for k := 0; haveRanged && k < 4; k++ {
+		sl, isSl := ranged.v.(*ssa.Slice)
+		if !isSl {
+			break
+		}
+		if _, isS := sl.X.Type().Underlying().(*types.Slice); !isS {
+			break
+		}
+		if sl.Low != nil {
+			if lo, isK := ir.ConstInt(sl.Low); !isK || lo != 0 {
+				break
+			}
+		}
+		inner := dv.resolve(sl.X, ranged.fr)
+		isLenOfInner := func(v ssa.Value) bool {
+			call, ok := ir.StripConv(v).(*ssa.Call)
+			if !ok || ir.CallID(call) != "builtin.len" {
+				return false
+			}
+			a := dv.resolve(call.Call.Args[0], ranged.fr)
+			return a.same(inner) || dv.pathName(a.v, a.fr, 0) == dv.pathName(inner.v, inner.fr, 0)
+		}
+		whole := sl.High == nil || isLenOfInner(sl.High)
+		if !whole {
+			if mc, isC := ir.StripConv(sl.High).(*ssa.Call); isC && ir.CallID(mc) == "builtin.min" {
+				bound, okB := c.sliceLenBound(inner.v)
+				hasLen, allBig := false, true
+				for _, a := range mc.Call.Args {
+					if isLenOfInner(a) {
+						hasLen = true
+					} else if kk, isK := ir.ConstInt(a); !isK || !okB || kk < bound {
+						allBig = false
+					}
+				}
+				if hasLen && allBig {
+					whole = true
+				} else if hasLen {
+					prefixUndecided = "the section loop ranges over the sorted table cut to min(len, ...) and the evaluator does not decide that the bound never cuts the table short"
+				}
+			}
+		}
+		if !whole {
+			break
+		}
+		ranged = inner
+	}
+	// the loop ranges over a selection of another slice (a list filled, while that
+	// slice is walked upwards, with elements of it): the order is that of the slice
+	// selected from, and the conditions of the selecting append count as conditions
+	// of the section loop
+	var selAt ssa.Instruction
+	var selFr *frame
+	if haveRanged {
+		if src, at, afr, isSel := dv.selectionOf(ranged); isSel {
+			ranged, selAt, selFr = src, at, afr
+		}
+	}
 	// the sort call
 	var sortCall *ssa.Call
 	var sortFr *frame
@@ -509,7 +752,16 @@ func (c *Ctx) sectionOrder(dv *deepView, fn *ssa.Function, parts []listItem) {
 		if sortFr == sfr {
 			before = sortCall.Block().Dominates(secPart.Block())
 		}
+		if selAt != nil {
+			// the selection is taken from the sorted slice: the sort comes first
+			before = before && dv.seqOf(sortCall, sortFr) < dv.seqOf(selAt, selFr)
+			if sortFr == selFr {
+				before = before && sortCall.Block().Dominates(selAt.Block())
+			}
+		}
 		switch {
+		case prefixUndecided != "":
+			det = "not decided for this shape: " + prefixUndecided
 		case !sorted.same(ranged) && dv.pathName(sorted.v, sorted.fr, 0) != dv.pathName(ranged.v, ranged.fr, 0):
 			det = "the slice that is sorted is not the slice the section loop ranges over (the sort has no effect on the hashing order)"
 		case !before:
@@ -518,7 +770,11 @@ func (c *Ctx) sectionOrder(dv *deepView, fn *ssa.Function, parts []listItem) {
 			ok = true
 		}
 	}
-	c.R.Check(ok, "J2.order", fname, "sorted-slice-is-hashed", c.Pos(fn.Pos()), "the section table that is hashed is the one sorted before the loop", det)
+	if !ok && strings.HasPrefix(det, "not decided") {
+		c.R.Infof("J2.order", fname, "sorted-slice-is-hashed", c.Pos(fn.Pos()), det)
+	} else {
+		c.R.Check(ok, "J2.order", fname, "sorted-slice-is-hashed", c.Pos(fn.Pos()), "the section table that is hashed is the one sorted before the loop", det)
+	}
 	if sortCall != nil {
 		okC, detC := c.ascendingByOffset(sortCall)
 		if !okC && strings.HasPrefix(detC, "not decided") {
@@ -534,10 +790,27 @@ func (c *Ctx) sectionOrder(dv *deepView, fn *ssa.Function, parts []listItem) {
 	if ai, isI := sec.at.(ssa.Instruction); isI && ai != nil && ai.Parent() == lf {
 		at = ai.Block()
 	}
-	for _, ce := range ir.DominatingConds(lf, at) {
+	type guardSite struct {
+		fn *ssa.Function
+		at *ssa.BasicBlock
+		fr *frame
+	}
+	guardSites := []guardSite{{lf, at, sfr}}
+	if selAt != nil {
+		guardSites = append(guardSites, guardSite{selFr.fn, selAt.Block(), selFr})
+	}
+	var guardConds []ir.CondEdge
+	guardFr := map[*ssa.If]*frame{}
+	for _, gs := range guardSites {
+		for _, ce := range ir.DominatingConds(gs.fn, gs.at) {
+			guardConds = append(guardConds, ce)
+			guardFr[ce.If] = gs.fr
+		}
+	}
+	for _, ce := range guardConds {
 		cmp, isB := ce.Cond.(*ssa.BinOp)
 		if !isB {
-			if ir.HasField(dv.sliceDeep(ce.Cond, sfr), "debug/pe.SectionHeader.Size") {
+			if ir.HasField(dv.sliceDeep(ce.Cond, guardFr[ce.If]), "debug/pe.SectionHeader.Size") {
 				mentions = true
 			}
 			continue
@@ -572,13 +845,23 @@ func (c *Ctx) sectionOrder(dv *deepView, fn *ssa.Function, parts []listItem) {
 			secLoop = l
 		}
 	}
+	var selLoop *natLoop
+	if selAt != nil {
+		for _, l := range naturalLoops(selFr.fn) {
+			if l.body[selAt.Block().Index] && (selLoop == nil || len(l.body) < len(selLoop.body)) {
+				selLoop = l
+			}
+		}
+	}
 	if secLoop != nil {
 		extra := ""
-		for _, ce := range ir.DominatingConds(lf, at) {
-			if !secLoop.body[ce.Edge.From] {
+		for _, ce := range guardConds {
+			inSec := guardFr[ce.If] == sfr && ce.If.Parent() == lf && secLoop.body[ce.Edge.From]
+			inSel := selLoop != nil && guardFr[ce.If] == selFr && ce.If.Parent() == selFr.fn && selLoop.body[ce.Edge.From]
+			if !inSec && !inSel {
 				continue
 			}
-			for v := range dv.sliceDeep(ce.Cond, sfr) {
+			for v := range dv.sliceDeep(ce.Cond, guardFr[ce.If]) {
 				id := ir.FieldID(v)
 				if ld, isLd := v.(*ssa.UnOp); isLd && ld.Op == token.MUL {
 					id = ir.FieldID(ld.X)
@@ -749,6 +1032,56 @@ func (c *Ctx) tailData(dv *deepView, fn *ssa.Function, parts []listItem, arms []
 			}
 		}
 	}
+	// what the buffer is cut to and what is appended behind it: Truncate(n) / Write(pad),
+	// or the same two steps made on the bytes of the buffer with slice operations
+	// (append(buf.Bytes()[:n], pad...))
+	var truncVal, padVal ssa.Value
+	var padAt ssa.Instruction
+	cutBySlice := false
+	if trunc != nil {
+		truncVal = trunc.Call.Args[1]
+	}
+	if padWrite != nil {
+		padVal, padAt = padWrite.Call.Args[1], padWrite
+	}
+	if trunc == nil && padWrite == nil {
+		for v := range sl {
+			ap, isAp := v.(*ssa.Call)
+			if !isAp || ir.CallID(ap) != "builtin.append" || len(ap.Call.Args) != 2 {
+				continue
+			}
+			afr := dv.frameOfFn(ap.Parent())
+			if afr == nil {
+				continue
+			}
+			base := dv.resolve(ap.Call.Args[0], afr)
+			cut, isCut := base.v.(*ssa.Slice)
+			if !isCut || cut.High == nil || cut.Max != nil {
+				continue
+			}
+			if cut.Low != nil {
+				if lo, isK := ir.ConstInt(cut.Low); !isK || lo != 0 {
+					continue
+				}
+			}
+			bc, isBytes := dv.resolve(cut.X, base.fr).v.(*ssa.Call)
+			if !isBytes || ir.CallID(bc) != "bytes.Buffer.Bytes" || !dv.objectOfAny(bc, rest) {
+				continue
+			}
+			if truncVal != nil {
+				truncVal, padVal = nil, nil // more than one candidate: left undecided below
+				ambiguous = true
+				break
+			}
+			truncVal, truncFr = cut.High, base.fr
+			padVal, padFr, padAt = ap.Call.Args[1], afr, ap
+			cutBySlice = true
+		}
+		if ambiguous {
+			c.R.Infof("J3.tail", fname, "trailing-data", c.IPos(call), "not decided for this shape: the bytes of the buffer are cut and extended by slice operations in more than one place")
+			return
+		}
+	}
 	// (a) filled from sum-of-bytes-hashed to the end of the file
 	if copyCall == nil {
 		bad = append(bad, "the buffer is not filled by io.Copy / ReadFrom from the image")
@@ -814,10 +1147,10 @@ func (c *Ctx) tailData(dv *deepView, fn *ssa.Function, parts []listItem, arms []
 		}
 	}
 	// (b) minus the certificate table
-	if trunc == nil {
+	if truncVal == nil {
 		bad = append(bad, "the certificate table is not cut off the trailing data (Truncate)")
 	} else {
-		a := dv.affine(trunc.Call.Args[1], truncFr, nil, 0)
+		a := dv.affine(truncVal, truncFr, nil, 0)
 		lenOK, sizeOK := false, false
 		for sym, cf := range a.T {
 			if strings.HasPrefix(sym, "len(") && cf == 1 {
@@ -834,10 +1167,10 @@ func (c *Ctx) tailData(dv *deepView, fn *ssa.Function, parts []listItem, arms []
 		}
 	}
 	// (c) zero padded to 8
-	if padWrite == nil {
+	if padVal == nil {
 		bad = append(bad, "no padding is appended")
 	} else {
-		pv := dv.resolve(padWrite.Call.Args[1], padFr)
+		pv := dv.resolve(padVal, padFr)
 		ex, ok := pv.v.(*ssa.Extract)
 		pc, isCall := (*ssa.Call)(nil), false
 		if ok {
@@ -847,16 +1180,16 @@ func (c *Ctx) tailData(dv *deepView, fn *ssa.Function, parts []listItem, arms []
 			// judged by value: for every residue of the padded quantity modulo 8 the number of
 			// bytes written is the distance to the next multiple of 8
 			if sym := remOperand(pv.v, 0); sym == nil {
-				c.R.Infof("J3.tail", fname, "trailing-data-pad", c.IPos(padWrite), "not decided for this shape: the padding does not come from PaddingBytes and no remainder modulo 8 is found in what computes its length")
+				c.R.Infof("J3.tail", fname, "trailing-data-pad", c.IPos(padAt), "not decided for this shape: the padding does not come from PaddingBytes and no remainder modulo 8 is found in what computes its length")
 			} else if vals, okV := c.lenFunction(pv.v, func(v ssa.Value) bool { return v == sym }); !okV {
-				c.R.Infof("J3.tail", fname, "trailing-data-pad", c.IPos(padWrite), "not decided for this shape: the number of padding bytes is not evaluated")
+				c.R.Infof("J3.tail", fname, "trailing-data-pad", c.IPos(padAt), "not decided for this shape: the number of padding bytes is not evaluated")
 			} else if vals != [8]int64{0, 7, 6, 5, 4, 3, 2, 1} {
 				bad = append(bad, fmt.Sprintf("the padding numbers %v bytes for sizes = 0..7 (mod 8), want the distance to the next multiple of 8", vals))
 			}
 		} else if k, isK := ir.ConstInt(dv.resolve(pc.Call.Args[1], pv.fr).v); !isK || k != 8 {
 			bad = append(bad, "the padding block size is not 8")
 		}
-		if trunc != nil {
+		if trunc != nil && padWrite != nil && !cutBySlice {
 			before := dv.seqOf(trunc, truncFr) < dv.seqOf(padWrite, padFr)
 			if truncFr == padFr {
 				before = precedesInCFG(truncFr.fn, trunc, padWrite)
